@@ -254,6 +254,12 @@ static void scalar(mon::Rng& rng)
         tainted<T[A][B], S> tm;
         for (size_t i = 0; i < A; i++) for (size_t j = 0; j < B; j++) tm[i][j] = v[i * B + j];
         store_case("store-whole-2d-array", tn, off, img, gs * NN, [&] { *pm = tm; }, what);
+        {
+          uint64_t qoff = (off < R.size / 2) ? R.size / 2 + 3072 : 3072;
+          std::memcpy(R.mem() + qoff, img, gs * NN);
+          R.randomize(rng, off, off + gs * NN);
+          store_case("store-2d-array-from-volatile", tn, off, img, gs * NN, [&] { *pm = *Wd::tptr<T[A][B]>(*SB, qoff); }, what, qoff, gs * NN);
+        }
         size_t i0 = rng.below(A), j0 = rng.below(B), k = i0 * B + j0;
         R.randomize(rng, off, off + gs * NN);
         store_case("store-2d-array-element", tn, off + k * gs, img + k * gs, gs, [&] { (*pm)[i0][j0] = v[k]; }, what);
@@ -331,6 +337,29 @@ static void pointers(mon::Rng& rng)
     store_case("store-whole-array", "int*", off, img, gs * 3, [&] { *pa = ta; }, "int*[3]");
     for (int i = 0; i < 3; i++)
       load_case<uintptr_t>("load-whole-array", off, gs * 3, tg[i] ? Wd::base(*SB) + tg[i] : 0, [&] { tainted<int* [3], S> t = *pa; return reinterpret_cast<uintptr_t>(t[i].UNSAFE_unverified()); }, "int*");
+  }
+  // multi-dimensional arrays of pointers int*[2][3]: whole store/load, and sandbox-to-sandbox copy (1-D and 2-D)
+  for (uint64_t off : offsets<int*>(rng, gs * 6)) {
+    auto pm = Wd::tptr<int* [2][3]>(*SB, off);
+    uint64_t tg[6];
+    unsigned char img[48];
+    tainted<int* [2][3], S> tm;
+    for (int i = 0; i < 6; i++) {
+      tg[i] = rng.below(4) == 0 ? 0 : 1 + rng.below(R.size - 1);
+      memmon::enc_int(img + i * gs, gs, static_cast<i128>(tg[i]));
+      if (tg[i]) tm[i / 3][i % 3] = Wd::tptr<int>(*SB, tg[i]); else tm[i / 3][i % 3] = nullptr;
+    }
+    R.randomize(rng, int64_t(off) - 64, int64_t(off + gs * 6) + 64);
+    store_case("store-whole-2d-array", "int*", off, img, gs * 6, [&] { *pm = tm; }, "int*[2][3]");
+    for (int i = 0; i < 6; i++)
+      load_case<uintptr_t>("load-whole-2d-array", off, gs * 6, tg[i] ? Wd::base(*SB) + tg[i] : 0, [&] { tainted<int* [2][3], S> t = *pm; return reinterpret_cast<uintptr_t>(t[i / 3][i % 3].UNSAFE_unverified()); }, "int*");
+    // sandbox-to-sandbox: the source image elsewhere in the region, destination randomised
+    uint64_t qoff = (off < R.size / 2) ? R.size / 2 + 2048 : 2048;
+    std::memcpy(R.mem() + qoff, img, gs * 6);
+    R.randomize(rng, off, off + gs * 6);
+    store_case("store-2d-array-from-volatile", "int*", off, img, gs * 6, [&] { *pm = *Wd::tptr<int* [2][3]>(*SB, qoff); }, "int*[2][3] = int*[2][3]", qoff, gs * 6);
+    R.randomize(rng, off, off + gs * 6);
+    store_case("store-array-from-volatile", "int*", off, img, gs * 3, [&] { *Wd::tptr<int* [3]>(*SB, off) = *Wd::tptr<int* [3]>(*SB, qoff); }, "int*[3] = int*[3]", qoff, gs * 3);
   }
   cb.unregister();
 }
